@@ -13,7 +13,7 @@ SPEC = dict(
     trusted=["hashicorp/raft State/VerifyLeader/LastContact/GetConfiguration are observed, not modelled",
              "the driver's projection of a live call: error class, raft log growth on the node, reported level, strongReadTerm, verify counters",
              "IsVoter() failing (raft shutting down) and raft.Apply losing leadership mid-request are outside the dispatch model"],
-    assumptions=["time.Since(last contact) is compared with the bound at a 200 ms margin (the exact-equality point of a running clock cannot be hit); the applied-minus-appended delta is exercised exactly at bound-1, bound, bound+1"],
+    assumptions=["time.Since(last contact) is compared with the bound at a 2 s margin (the exact-equality point of a running clock cannot be hit); the applied-minus-appended delta is exercised exactly at bound-1, bound, bound+1"],
     level_text="Theorems C16_is_stale_spec (iff the documented rule), C16_weak_only_on_leader, C16_auto_is_weak_on_voter_none_on_nonvoter (+ per entry point), "
                "C16_none_refused_iff_stale and C16_lin_ok_implies hold for every node observation and request (no bound); the model's store_is_stale and dispatch are the functions "
                "evaluated on the driver's cases.",
